@@ -1,4 +1,4 @@
-// C18 -- Lagrange-3 on quad, tria, hexa, tetra
+// C18 -- Lagrange-3 (H, X)
 #include "c18.hpp"
 #include <kernel/space/lagrange3/element.hpp>
 using namespace c18;
@@ -11,7 +11,6 @@ namespace
     static constexpr int pdeg = 3, qdeg = 3;
   };
   typedef Shape::Hypercube<2> Q; typedef Shape::Simplex<2> T; typedef Shape::Hypercube<3> H; typedef Shape::Simplex<3> X;
-  const c18::PairEntry pairs[] = {
-    {&c18::Monitors<DLagrange3, Q>::run, true}, {&c18::Monitors<DLagrange3, T>::run, true}, {&c18::Monitors<DLagrange3, H>::run, false}, {&c18::Monitors<DLagrange3, X>::run, false}};
+  const c18::PairEntry pairs[] = {{"lag3", "L3:H", &c18::Monitors<DLagrange3, H>::run, false}, {"lag3", "L3:X", &c18::Monitors<DLagrange3, X>::run, false}};
+  c18::RegPairs reg(pairs, sizeof(pairs) / sizeof(pairs[0]));
 }
-VH_FAMILY(lag3) { c18::run_pair(c, pairs, sizeof(pairs) / sizeof(pairs[0])); }
